@@ -267,6 +267,10 @@ func (m *recoveryMessage) GetCommits(p dbft.ConsensusPayload[util.Uint256], vali
 
 	for i, c := range m.commitPayloads {
 		cc := fromPayload(commitType, p.(*Payload), &commit{signature: c.Signature})
+		// A committed node keeps Commits it has received in earlier views and
+		// relays them in its recovery messages, so the view of a Commit is the
+		// one recorded for it, not the view of the recovery message itself.
+		cc.message.ViewNumber = c.ViewNumber
 		cc.message.ValidatorIndex = c.ValidatorIndex
 		cc.Sender = validators[c.ValidatorIndex].(*keys.PublicKey).GetScriptHash()
 		cc.Witness.InvocationScript = c.InvocationScript
